@@ -136,7 +136,7 @@ def _probe(rec, a, exps, nan, kernel, rng, pay_extra, count_exh=False):
     dt = 'float64'
     if not nan.any() and rng.random() < 0.15:
         dt = 'int32'
-    r = gen.mk(a.astype(dt), attrs={'res': (1, 1)})
+    r = gen.mk(gen.rand_layout(a.astype(dt), rng), attrs={'res': (1, 1)})
     pay = dict(raster=a, kernel=kernel, dtype=dt, **pay_extra)
     asym = not (np.array_equal(kernel, kernel[::-1]) and np.array_equal(kernel, kernel[:, ::-1]) and
                 (kernel.shape[0] != kernel.shape[1] or np.array_equal(kernel, kernel.T)))
@@ -241,7 +241,7 @@ def check(rec, kind, idx, rng, tier):
     if z.dtype.kind == 'f' and rng.random() < 0.5:
         z = gen.sprinkle(z, rng, float(rng.choice([0.05, 0.2, 0.5]))).astype(dtype)
     geom = gen.random_geom(rng)
-    r = gen.mk(z, attrs={'res': (geom['cx'], geom['cy'])}, **geom)
+    r = gen.mk(gen.rand_layout(z, rng), attrs={'res': (geom['cx'], geom['cy'])}, **geom)
     z32 = z.astype('float32').astype('float64')
     if kind == 'stats':
         k = gen.kernel01(rng)
